@@ -359,5 +359,31 @@ theorem add_nodes {s s' : Snap} {n syn : Node} {f2o : SlotMap} {data : String} {
     subst hd
     exact ⟨n1, by simp⟩
 
+/-! ## every sequence of modelled insertions -/
+
+theorem inserts_keep_old_class_inv {s s'' : Snap} (hok : AddOK s) (hi : Inserts s s'') {c : SClass} (hc : c ∈ s.classes)
+    (hinv : (sortedStrict c.slots && leaderOK s c && gensOK c && c.nodes.all (nodeOK c) && childrenOK s c) = true) :
+    c ∈ s''.classes ∧
+    (sortedStrict c.slots && leaderOK s'' c && gensOK c && c.nodes.all (nodeOK c) && childrenOK s'' c) = true := by
+  induction hi with
+  | refl s => exact ⟨hc, hinv⟩
+  | step h _ ih =>
+    obtain ⟨hc', hinv'⟩ := add_keeps_old_class_inv hok h hc hinv
+    exact ih (addOK_add hok h) hc' hinv'
+
+theorem inserts_keep_shapes_unique {s s'' : Snap} (hok : AddOK s) (hi : Inserts s s'')
+    (hu : (s.classes.flatMap fun c => c.nodes.map (·.1)).Nodup) :
+    (s''.classes.flatMap fun c => c.nodes.map (·.1)).Nodup := by
+  induction hi with
+  | refl s => exact hu
+  | step h _ ih => exact ih (addOK_add hok h) (add_keeps_shapes_unique hok hu h)
+
+theorem inserts_keep_leaders_groups {s s'' : Snap} (hok : AddOK s) (hi : Inserts s s'')
+    (hl : ∀ c ∈ s.classes, leaderOK s c = true) (hg : ∀ c ∈ s.classes, Grp.Valid c.slots c.gens) :
+    (∀ c ∈ s''.classes, leaderOK s'' c = true) ∧ ∀ c ∈ s''.classes, Grp.Valid c.slots c.gens := by
+  induction hi with
+  | refl s => exact ⟨hl, hg⟩
+  | step h _ ih => exact ih (addOK_add hok h) (add_keeps_leaderOK hok hl h) (add_keeps_groups_valid hok hg h)
+
 end Snap
 end SV
